@@ -155,6 +155,10 @@ def run(prog: Program, res: Result) -> None:  # noqa: PLR0912, PLR0915
             else:
                 res.fail("C09.R2", file=mod.relpath, line=stmt.lineno, qualname=fi.qualname, construct=f"{kind} {norm(tgt, 60)}", message=f"{why}: `{norm(stmt, 70)}` changes {label}, which is shared by every render that uses it", what=what)
     res.floor("C09.R2", "classified writes", n_writes, 25)
+    res.rule("C09.R2b", "the one sanctioned in-place update of a shared Template (the caching loaders' global_data rebinding, a known finding of R2) is at least unconditional: a cache hit is never returned with the globals of an earlier caller (shared with C14.R2)")
+    from checks.shared import check_cache_hit_rebinds
+
+    check_cache_hit_rebinds(prog, res, "C09.R2b")
 
     # ------------------------------------------------------------------ R3 fresh per-render state
     res.rule("C09.R3", "RenderContext.__init__ builds locals/counters/tag_namespace/loops from fresh literals; Template.render[_async] constructs a new RenderContext and buffer on every call; class-level containers handed to instances are never mutated")
